@@ -374,6 +374,13 @@ def dimfile_cases(draw):
     U = draw(gen.universes(min_dims=1, max_dims=4, max_len=4, kinds=("str", "int")))
     for d in U["dims"]:  # file order is arbitrary, not sorted
         d["items"] = list(draw(st.permutations(d["items"])))
+        if d["dtype"] == "str" and draw(st.integers(0, 2)) == 0:
+            # labels are free text: a size class may be called 's', a region 'b', a product 'Time'
+            others = [o["letter"] for o in U["dims"]] + [o["name"] for o in U["dims"] if o is not d]
+            lab = draw(st.sampled_from(others))
+            pos = draw(st.integers(0, len(d["items"]) - 1))
+            if lab not in d["items"]:
+                d["items"][pos] = lab
     specs = [{"orient": draw(st.sampled_from(["row", "col"])), "header": draw(st.booleans()), "decoy_first": draw(st.booleans())} for _ in U["dims"]]
     fmt = draw(st.sampled_from(["csv", "excel", "excel"]))
     return {"universe": U, "specs": specs, "fmt": fmt, "sheets": draw(st.sampled_from(["named", "first"])) if fmt == "excel" else "n/a"}
